@@ -527,3 +527,68 @@ func closeAtHandshakeEnd(r *vh.Runner, c *vh.Case, i int) {
 	}
 	r.Nontrivial(fmt.Sprintf("che|%d|%v", i, hsErr == nil))
 }
+
+// serverCloseDuringHandshakes: several clients are in the middle of their
+// handshakes (some just finishing on the server) when Server.Close is called;
+// Accept callers are waiting. Close returns, every Accept returns (a handle or
+// end-of-stream), every client call returns, nothing panics.
+func serverCloseDuringHandshakes(r *vh.Runner, c *vh.Case, i int) {
+	rng := vh.NewRand(r.Seed, "c17-scdh", i)
+	pt := perturb.Install(r.Seed^uint64(i)*1409, false, rng.Pick(60, 100))
+	defer pt.Remove()
+	cv := &transport.VerifyConfig{}
+	w := fix.NewWorld(false, cv, nil)
+	cv.Store = w.PKI.Store()
+	id := w.PKI.Issue(certs.RawStringName("client"))
+	nc := 2 + rng.Intn(5)
+	var wg sync.WaitGroup
+	var clients []*transport.Client
+	for k := 0; k < nc; k++ {
+		cl, _ := w.NewClient(id, rng.Chance(0.3), 2*time.Second)
+		clients = append(clients, cl)
+		wg.Add(1)
+		delay := time.Duration(rng.Intn(3000)) * time.Microsecond
+		go func() {
+			defer wg.Done()
+			time.Sleep(delay)
+			cl.Handshake()
+		}()
+	}
+	accepted := 0
+	var amu sync.Mutex
+	for k := 0; k < 2; k++ {
+		wg.Add(1)
+		go func() {
+			defer wg.Done()
+			for {
+				_, err := w.Server.AcceptTimeout(30 * time.Second)
+				if err != nil {
+					return
+				}
+				amu.Lock()
+				accepted++
+				amu.Unlock()
+			}
+		}()
+	}
+	closeAt := time.Duration(rng.Intn(4000)) * time.Microsecond
+	wg.Add(1)
+	go func() {
+		defer wg.Done()
+		time.Sleep(closeAt)
+		w.Server.Close()
+	}()
+	done := bub.Go(wg.Wait)
+	r.Count("evaluations", 1)
+	r.Count("server_close_during_handshakes", 1)
+	if !bub.Within(done, 60*time.Second) {
+		c.Violate("C17:transport-call-never-returns:Server.Close-during-handshakes", map[string]any{"clients": nc, "close_after": closeAt.String(), "perturbation": pt.Signature()})
+	}
+	for _, cl := range clients {
+		cl.Close()
+	}
+	amu.Lock()
+	r.Count("handles_accepted_before_close", int64(accepted))
+	amu.Unlock()
+	r.Nontrivial(fmt.Sprintf("scdh|%d", i))
+}
